@@ -24,6 +24,8 @@ func runC12(r *engine.Run) {
 	r.Rule("AGREE-embed", "writer and reader of the embedded shared-prefix child agree: routingNode.Serialize appends child hash, big-endian child weight, value hash, key in that order and DeserializeNode reads offsets [0:32], [32:40], [40:72], [72:] with the same byte order; collectNodes emits and deserializeTrie consumes in the same pre-order (node first, then children by ascending index / the single value)")
 	r.Rule("AGREE-linkback", "whenever markToCollect is called on a position read from a node (a branch's child slot, a shared-prefix node's value) its result is stored back into that same slot: a child that had to be loaded from storage becomes part of the trie that is exported")
 	r.Rule("EXPORT-kind", "collectNodes replaces an unrequested node by a bare hash reference only when it is a branch; shared-prefix and value nodes are exported in full, because the importer overwrites the parent's embedded copy with what the export contains and a later delete needs the sibling's kind and key to merge")
+	r.Rule("FRESH-copy", "see C10: a CopyRoot snapshot shares no mutable node with the trie it was taken from (a write to the original would change the snapshot's leaf under unchanged ancestors: the export and the partial trie then diverge from the snapshot on the same write)")
+	r.Rule("AGREE-sync", "see C11: a commit the caller asked to be durable is fsynced (the collapsed nodes exist only in storage: after a crash the trie reopened from its root cannot be exported)")
 	r.Rule("DOM-collected", "every return of GetPath that hands out an export (first result not nil) is dominated by the call of collectNodes: no shortcut in front of the marking and collection exports something else than the trie")
 	r.Rule("REF-fieldbuf", "see C10: no method of the weighted trie returns the byte view of a buffer kept in its receiver (an export handed out earlier would be rewritten by the next call)")
 	r.Rule("AGREE-limits", "the two wire entry points (path export import and block-proof verification) configure the same CBOR decoding limits (set in the function, in a package-local helper, or where a shared package-level decoding mode is built): a proof or export that one accepts is not rejected by the other for its size; and the importer raises MaxArrayElements above the library default (an export is one array of node records that grows with the number of requested keys)")
@@ -47,6 +49,8 @@ func runC12(r *engine.Run) {
 	exportKind(r)
 	agreeLimits(r, "AGREE-limits")
 	domCollected(r, "DOM-collected")
+	freshCopy(r, "FRESH-copy")
+	agreeSync(r, "AGREE-sync")
 	refFieldBuf(r, "REF-fieldbuf", funcsOfPkg(r, pkgWMPT))
 	orderHashFresh(r, "ORDER-hashfresh")
 	domMarked(r, "DOM-marked")
@@ -366,6 +370,7 @@ func runC13(r *engine.Run) {
 	r.Rule("DOM-rollbackinstalls", "every return of RollbackTrie that is reachable after a storage operation is dominated by the store of the node argument into the root field: the rollback, which has no result, installs the requested root also when the purge of the rolled-back commit's nodes fails")
 	r.Rule("FRESH-hashbuf", "a node's hash, once computed, is an immutable value: in the weighted trie no value derived from a load of a node's hash field is the destination of copy, the base of append, the target of an element store or, re-sliced, an argument of a call. Hash() hands out the slice itself and the checkpoint, the scheduled deletes and the hash references keep it uncopied")
 	r.Rule("DOM-createdkept", "in Commit every reset of the created list (a store of nil / an empty slice into the field, directly or in a callee up to two levels down) is reached only on paths where the root's Dirty() tested true: a Commit that has nothing to save leaves the list a rollback works from alone")
+	r.Rule("AGREE-kvops", "see C11: the adapter's Delete is pebble's Delete (a SingleDelete leaves an earlier write of a re-saved node readable: the rollback's purge of created nodes does not remove them)")
 	r.Rule("ORDER-stage", "see C11: DeleteNodes deletes only the set staged by the previous pass and stages tempDeleted afterwards (a pass that merges two generations after a failed batch deletes, on retry, the checkpoint's nodes the rolled-back commit replaced)")
 	r.Rule("FRESH-copy", "see C10: no return of Copy or CopyRoot is the receiver itself and no child slot of the copy is filled with the receiver's own child object: a checkpoint captured with CopyRoot shares no mutable node with the live trie (insert rewrites value nodes in place, so RollbackTrie to a sharing checkpoint restores the rolled-back value and weight under the checkpoint's root)")
 	r.Rule("ORDER-wait", "see C11: Commit closes the created and deleted channels and waits for the collector goroutines before it returns")
@@ -387,6 +392,7 @@ func runC13(r *engine.Run) {
 	orderJoined(r, "ORDER-joined")
 	recordsEvery(r, "AGREE-rollback")
 	orderStage(r)
+	kvAdapter(r, "AGREE-kvops")
 }
 
 func bookkeepingResets(f *ssa.Function) (map[string]bool, bool, bool) {
